@@ -168,6 +168,20 @@ fn c19_order() {
         let want = Some(rules[c].2);
         if got != want { found("c19_order", &format!("css={} split={} html=<p class=\"x y z\">t</p>", css, split), &format!("colour {:?}, expected the last rule's {:?}", got, want)); }
     }}}}
+    // the same sequences as three <style> elements of the document (use_doc_css), in the head, in the body, or split between them: the
+    // sheets count in document order
+    for a in 0..3 { for b in 0..3 { for c in 0..3 { for place in 0..3 {
+        let sheet = |k: usize| format!("<style>{}{{color:{};}}</style>", rules[k].0, rules[k].1);
+        let html = match place {
+            0 => format!("<html><head>{}{}{}</head><body><p class=\"x y z\">t</p></body></html>", sheet(a), sheet(b), sheet(c)),
+            1 => format!("{}{}{}<p class=\"x y z\">t</p>", sheet(a), sheet(b), sheet(c)),
+            _ => format!("<html><head>{}</head><body>{}<div>{}</div><p class=\"x y z\">t</p></body></html>", sheet(a), sheet(b), sheet(c)),
+        };
+        cases += 1;
+        let got = colour_of(config::rich().use_doc_css(), &html);
+        let want = Some(rules[c].2);
+        if got != want { found("c19_order", &format!("use_doc_css html={}", html), &format!("colour {:?}, expected the last sheet's {:?}", got, want)); }
+    }}}}
     // three declarations of different specificity in every order, with every assignment of two colours (a declaration may restate the value
     // already computed): the winner is the declaration with the greatest (ids, classes, elements), the later one on a tie
     let sels = [("p", (0, 0, 1)), (".k", (0, 1, 0)), ("#i", (1, 0, 0)), ("p.k", (0, 1, 1)), ("p", (0, 0, 1))];
@@ -470,9 +484,12 @@ impl TextDecorator for RomanDec {
 }
 fn c16_roman() {
     let mut cases = 0u64;
+    // first pass: the width bound only, with first words of 3..6 columns (a marker wider than the common width pushes the first line of
+    // its item out); second pass: alignment as well
+    for pass in 0..2 { for extra in ["", "x", "xyz"] { if pass == 1 && !extra.is_empty() { continue; }
     for (start, n) in [(1i64, 4usize), (1, 9), (6, 4), (17, 3), (38, 2)] {
         let mut html = format!("<ol start=\"{}\">", start);
-        for k in 0..n { html.push_str(&format!("<li>aa{} bbb ccc ddd</li>", k)); }
+        for k in 0..n { html.push_str(&format!("<li>aa{}{} bbb ccc ddd</li>", k, extra)); }
         html.push_str("</ol>");
         for w in 8..=24usize {
             cases += 1;
@@ -484,11 +501,12 @@ fn c16_roman() {
                     if let Some(l) = s.lines().find(|l| UnicodeWidthStr::width(*l) > w) { found("c16_roman", &format!("width={} html={}", w, html), &format!("line {:?} is {} columns wide; output {:?}", l, UnicodeWidthStr::width(l), s)); continue; }
                     // all items start their text in one column
                     let cols: Vec<usize> = s.lines().filter(|l| l.contains("aa")).map(|l| UnicodeWidthStr::width(&l[..l.find("aa").unwrap()])).collect();
-                    if cols.windows(2).any(|p| p[0] != p[1]) { found("c16_roman", &format!("width={} html={}", w, html), &format!("item texts start in columns {:?}; output {:?}", cols, s)); }
+                    if pass == 1 && cols.windows(2).any(|p| p[0] != p[1]) { found("c16_roman", &format!("width={} html={}", w, html), &format!("item texts start in columns {:?}; output {:?}", cols, s)); }
                 }
             }
         }
     }
+    }}
     println!("NONE {}", cases);
 }
 
